@@ -47,4 +47,11 @@ def truncSubsecSpec (frac : Int) (digits : Nat) : Int × Int :=
 def roundSubsecSpec (frac : Int) (digits : Nat) : Int × Int :=
   fieldOf (leapBase frac) (roundSpec frac (digitSpan digits))
 
+/-- the specified `(field, carried seconds)` pair and the specified signed move of
+`round_subsecs` (`round = true`) / `trunc_subsecs` -/
+def subsecSpec (round : Bool) (frac : Int) (digits : Nat) : Int × Int :=
+  if round then roundSubsecSpec frac digits else truncSubsecSpec frac digits
+def subsecMove (round : Bool) (frac : Int) (digits : Nat) : Int :=
+  (if round then roundSpec frac (digitSpan digits) else truncSpec frac (digitSpan digits)) - frac
+
 end Chrono.Spec.Round
